@@ -15,6 +15,17 @@ COLLECTION_COMPATIBLE_VERSION = "0.4.5"
 """The oldest version of physt that should be able to read the stored histogram collections."""
 
 
+def _plain_number(value):
+    """numpy scalars given as arguments (bin_count=np.int64(4), keep_missed=np.bool_(True)...)."""
+    import numpy as np
+
+    if isinstance(value, np.generic):
+        plain = value.item()
+        if not isinstance(plain, np.generic):
+            return plain
+    raise TypeError(f"Object of type {type(value).__name__} is not JSON serializable")
+
+
 def save_json(
     histogram: Union[HistogramBase, HistogramCollection],
     path: Union[str, Path, None] = None,
@@ -42,6 +53,7 @@ def save_json(
     else:
         raise TypeError(f"Cannot save unknown type: {type(histogram)}")
 
+    kwargs.setdefault("default", _plain_number)
     text = json.dumps(data, **kwargs)
     if path:
         with open(path, "w", encoding="utf-8") as f:
